@@ -12,7 +12,7 @@ from vlib.runner import Facet, Violation, HarnessError
 from vlib import sut  # noqa: F401
 
 PROPERTY = "C10"
-RULE = ("exhaustive: every call sequence of length <= 5 over the 10 concrete lifecycle calls {setup(s0), "
+RULE = ("exhaustive: every call sequence of length <= 5 (thorough tier: <= 6) over the 10 concrete lifecycle calls {setup(s0), "
         "setup(s1), iterate, iterate_n(3), run(0), sample, get_progress, is_complete, get_output, "
         "finalize} on one Euler engine that respects the lifecycle grammar (first call a setup; after "
         "finalize only finalize or setup), executed in a sandboxed child and compared call by call with a "
@@ -29,7 +29,7 @@ ASSUMPTIONS = ["calls other than finalize / setup on a finalized engine are outs
                "run(ms > 0) is only used in run-to-completion loops (its slicing depends on the wall clock)",
                "known finding D14: engine objects share one native simulation; histories that touch an object "
                "after another object has been set up are generated only in the probe, and counted as excluded"]
-EXHAUSTIVE_PART = "facet 'exhaustive': all grammar-respecting call sequences of length <= 5 over 10 concrete calls on one engine"
+EXHAUSTIVE_PART = "facet 'exhaustive': all grammar-respecting call sequences of length <= 5 (quick) / <= 6 (thorough) over 10 concrete calls on one engine"
 DEF_US = {"space": "µm", "time": "s", "quantity": "molecule"}
 
 
@@ -180,7 +180,7 @@ def grammar_ok(h):
 
 
 def enum_histories(ctx):
-    for L in range(1, 6):
+    for L in range(1, 7 if ctx.tier == "thorough" else 6):
         for h in itertools.product(range(len(CALLS)), repeat=L):
             if grammar_ok(h):
                 yield {"h": list(h)}
